@@ -19,7 +19,7 @@ RULE = ("(a) exhaustive: every condition tree with <= N connectives (N=2 quick, 
         "3x4 world; (b) random queries over 1-4 variables of two related classes (Q.p -> P): self-joins, chained attributes, object "
         "equality joins, literals, predicates over two variables, conditions mentioning only a subset of the variables "
         "(free Cartesian completion), no condition at all, every selection subset and order, selected attribute "
-        "expressions; depth<=4; caching on (default) and off; set_of(...) and an([..], ...) spellings. Non-trivial: the "
+        "expressions; depth<=4; caching on (default) and off; set_of(...) and an([..], ...) spellings; (c) joins written as positional / keyword arguments of a predicate-form term whose class inherits a keyword-only field (Lk(From(links), x, y)). Non-trivial: the "
         "oracle result is neither empty nor the whole product; distinct by structural hash of (query, data, config).")
 LEVEL_TEXT = ("Reference-model monitoring at the API boundary: rows returned by the real evaluation are compared, by object "
               "identity, with the brute-force filter of the Cartesian product (set always; multiset when all variables "
@@ -36,6 +36,74 @@ ASSUMPTIONS = [
     "Union is unreachable from or_()/| on this code base (evidence: monitor_counts has no Union.* entry); it is "
     "exercised only through Next in C12",
 ]
+
+
+# ---- joins written as positional arguments of a predicate-form term: Lk(From(links), x, y) joins x, y and the link
+from dataclasses import dataclass as _dc, field as _field
+from typing import Any as _Any
+from entity_query_language import symbol as _symbol
+
+
+@_symbol
+@_dc(eq=False)
+class LkBase:
+    world: _Any = _field(default=None, kw_only=True)     # inherited keyword-only field: NOT the first positional one
+
+
+@_symbol
+@_dc(eq=False)
+class Lk(LkBase):
+    src: _Any = None
+    dst: _Any = None
+    w: _Any = 1
+
+
+def _posjoin_case(rng):
+    world = D.random_world(rng, np_=(2, 4), nq=(1, 2), rich=False)
+    n = len(world["P"])
+    links = [[rng.randrange(n), rng.randrange(n), rng.randint(1, 2)] for _ in range(rng.randint(2, 6))]
+    return {"posjoin": {"links": links, "w": rng.choice([None, 1, 2]), "xk": rng.randint(0, 2), "spelling": rng.choice(["pos", "pos", "kw"]),
+                        # (the term has to be selected: its arguments are conditions of the TERM, a query that does not mention it has none)
+                        "sel": rng.choice([["l", "x", "y"], ["x", "l", "y"], ["y", "l"], ["l"]])},
+            "world": world, "caching": rng.random() < 0.7}
+
+
+def check_posjoin_case(case, ctx):
+    from entity_query_language import symbolic_mode, an, set_of, let, From
+    from entity_query_language.cache_data import enable_caching, disable_caching
+    pj = case["posjoin"]
+    world = D.build_world(case["world"])
+    ps = world["P"]
+    links = [Lk(src=ps[i], dst=ps[j], w=w) for i, j, w in pj["links"]]
+    lab = {id(o): f"P{i}" for i, o in enumerate(ps)}
+    lab.update({id(o): f"L{i}" for i, o in enumerate(links)})
+    ctx.cls("cls:join_through_positional_term_arguments")
+    exp = [{"l": l_, "x": x_, "y": y_} for l_ in links for x_ in ps for y_ in ps
+           if l_.src is x_ and l_.dst is y_ and (pj["w"] is None or l_.w == pj["w"]) and x_.a > pj["xk"]]
+    exp_rows = sorted({tuple(lab[id(r[k])] for k in pj["sel"]) for r in exp})
+    if 0 < len(exp) < len(links):
+        ctx.nontrivial()
+    (enable_caching if case["caching"] else disable_caching)()
+    try:
+        with symbolic_mode():
+            x, y = let(D.P, ps), let(D.P, ps)
+            if pj["spelling"] == "pos":
+                l = Lk(From(links), x, y) if pj["w"] is None else Lk(From(links), x, y, pj["w"])
+            else:
+                l = Lk(From(links), src=x, dst=y) if pj["w"] is None else Lk(From(links), src=x, dst=y, w=pj["w"])
+            v = {"l": l, "x": x, "y": y}
+            q = an(set_of([v[k] for k in pj["sel"]], x.a > pj["xk"]))
+        got = sorted({tuple(lab.get(id(r[v[k]]), "?") for k in pj["sel"]) for r in q.evaluate()})
+    except Exception as e:
+        import traceback
+        ctx.fail("EXC", f"positional join: {type(e).__name__}: {e}\n{traceback.format_exc()[-500:]}")
+        return
+    finally:
+        enable_caching()
+    if got != exp_rows:
+        ctx.fail("SET:" + ("missing" if set(exp_rows) - set(got) else "") + ("+extra" if set(got) - set(exp_rows) else ""),
+                 {"positional_join": pj, "expected": exp_rows, "observed": got})
+    ctx.sample({"positional_join": pj, "expected": exp_rows[:4], "observed": got[:4]})
 
 
 # ---- bounded-exhaustive part: two joined variables (x over P, y over Q), 6 leaves, fixed 3x4 world
@@ -66,17 +134,23 @@ def plan(tier, seed):
     n = 800 if tier == "quick" else 4000
     nsh = 16
     return [{"n": n, "sub": i} for i in range(nsh)] + \
-        [{"kind": "exh2", "size": SIZES[tier], "stride": nsh, "offset": i} for i in range(nsh)]
+        [{"kind": "exh2", "size": SIZES[tier], "stride": nsh, "offset": i} for i in range(nsh)] + \
+        [{"kind": "posjoin", "n": 40 if tier == "quick" else 400, "sub": 300 + i} for i in range(nsh)]
 
 
 def floors(tier):
     return {"distinct_nontrivial": 300, "cls:all_selected": 200, "cls:subset_selected": 100, "cls:caching_off": 100,
             "cls:completion": 50, "cls:expr_selected": 10, "re:.*@Comparator\\.R\\.enter": 1000,
             "re:Variable@Comparator\\.L\\.enter": 100, "cache.check.hit": 200, "dedup.call": 500,
-            "cls:nvars=3": 100, "cls:nvars=4": 50, "cls:exhaustive_two_variable_tree": 2000}
+            "cls:nvars=3": 100, "cls:nvars=4": 50, "cls:exhaustive_two_variable_tree": 2000,
+            "cls:join_through_positional_term_arguments": 200}
 
 
 def cases(spec, ctx):
+    if spec.get("kind") == "posjoin":
+        for i in range(spec["n"]):
+            yield _posjoin_case(ctx.rng(spec["sub"], i))
+        return
     if spec.get("kind") == "exh2":
         for i, tree in enumerate(C.enumerate_trees(LEAVES2, spec["size"])):
             if i % spec["stride"] == spec["offset"]:
@@ -102,6 +176,8 @@ def _run(case, world, caching, times=1):
 
 
 def check_case(case, ctx):
+    if "posjoin" in case:
+        return check_posjoin_case(case, ctx)
     world = D.build_world(case["world"])
     exp = multi.expected(case, world)
     nv = len(case["kinds"])
@@ -143,6 +219,8 @@ def check_case(case, ctx):
 
 def classify(f, ctx):
     case = f["case"]
+    if "posjoin" in case:
+        return None
     world = D.build_world(case["world"])
     exp = multi.expected(case, world)
     return classify_multi(f, case, world, exp)
